@@ -53,10 +53,13 @@ func LoadKnown(path, prop string) []Known {
 // MatchKnown returns the id of the known finding that explains (class, input), or "".
 func MatchKnown(ks []Known, class string, input []byte) string {
 	for _, k := range ks {
-		if !k.classRe.MatchString(class) {
+		// entries without an input pattern are decided by a semantic predicate in the harness
+		// (knownFinding), never by class alone: a class-wide match would hide every other
+		// violation of that class
+		if k.inputRe == nil || !k.classRe.MatchString(class) {
 			continue
 		}
-		if k.inputRe != nil && !k.inputRe.Match(input) {
+		if !k.inputRe.Match(input) {
 			continue
 		}
 		return k.ID
